@@ -61,3 +61,17 @@ pub fn run(a: &Args) {
     println!("word={}", h.admission_word());
     println!("log={}", log.iter().map(|(t, l)| format!("{}:{}", if *t == usize::MAX { 99 } else { *t }, l)).collect::<Vec<_>>().join(","));
 }
+
+/// C02 type gate: send a u32 (wrong type) or u64 (right type) through the type-checked entry to a local or remote mailbox
+pub fn typegate(a: &Args) {
+    let remote = a.u64("remote") == 1;
+    let wrong = a.u64("wrong") == 1;
+    let mut det = if remote { mbx::detached_with_id(2, Some((1, 9))) } else { mbx::detached(2) };
+    let h = det.handle();
+    let word0 = h.admission_word();
+    let r = if wrong { h.send_wrong_type(7) } else { h.send_right_type_checked(7) };
+    println!("result={}", r);
+    println!("queued={}", det.queue().len());
+    println!("word_changed={}", (h.admission_word() != word0) as u8);
+    println!("status={}", h.status());
+}
